@@ -1,6 +1,9 @@
 // vv-harness: runs the real crates from /repo on generated cases.
 // stdin: one case (val) per line; stdout: one observation (val) per line.
+mod fam_be;
 mod fam_valid;
+mod peer;
+mod shim;
 mod val;
 
 use std::io::{BufRead, Write};
@@ -15,6 +18,7 @@ fn run_case(c: &Val) -> Val {
     let args = &l[1..];
     match fam {
         "valid" => fam_valid::run(args),
+        "be" => fam_be::run(args),
         _ => Val::err("family"),
     }
 }
